@@ -52,7 +52,7 @@ package postprocessor
 //@   property C06
 //@   modifies nothing
 //@   requires item != nil && item.url != nil && config.config != nil
-//@   ensures [hops] result == ((domainscrawl.dcOn() || item.url.Hops < config.config.MaxHops) && item.url.body != nil) // C06: outlinks that do not match --domains-crawl are queued only from pages with fewer than --max-hops hops
+//@   ensures [hops] @C06,C19 result == ((domainscrawl.dcOn() || item.url.Hops < config.config.MaxHops) && item.url.body != nil) // C06: outlinks that do not match --domains-crawl are queued only from pages with fewer than --max-hops hops
 
 //@ func shouldExtractAssets
 //@   attr safety C10
